@@ -181,19 +181,28 @@ func R08(group string) Rule {
 		case "applyMutations":
 			fn := P.MustFunc(core.PkgBttest, "applyMutations")
 			c.Fn("applyMutations")
-			famGuard := func(at *ssa.BasicBlock, name ssa.Value) bool {
-				return name != nil && factLookupOk(at, func(lk *ssa.Lookup) bool {
-					return isLiveFamilies(lk.X) && sameFieldLoad(lk.Index, name)
+			// the applier together with the helpers it is split into
+			scope := P.Scope(fn, nil)
+			within := setOf(scope)
+			famGuard := func(at ssa.Instruction, name ssa.Value) bool {
+				return name != nil && P.InAllContexts(at, []ssa.Value{name}, within, func(at ssa.Instruction, vals []ssa.Value) bool {
+					return vals[0] != nil && factLookupOk(at.Block(), func(lk *ssa.Lookup) bool {
+						return isLiveFamiliesAnywhere(P, lk.X) && sameFieldLoad(lk.Index, vals[0])
+					})
 				})
 			}
 			// SetCell
-			ins := callsTo(fn, core.PkgBttest, "appendOrReplaceCell")
-			if len(ins) != 1 {
-				c.Unknown("R08", "applyMutations/SetCell", fn.Pos(), "expected one appendOrReplaceCell call in applyMutations, found %d", len(ins))
-			} else {
-				e := ins[0]
+			ins := scopeCallsTo(scope, core.PkgBttest, "appendOrReplaceCell")
+			if len(ins) == 0 {
+				c.Unknown("R08", "applyMutations/SetCell", fn.Pos(), "no appendOrReplaceCell call reachable from applyMutations")
+			}
+			for i, e := range ins {
+				sfx := ""
+				if i > 0 {
+					sfx = fmt.Sprintf("#%d", i+1)
+				}
 				name := familyNameFeeding(e.Call.Args[0])
-				c.Check(famGuard(e.Block(), name), "R08", "applyMutations/SetCell/family-known", e.Pos(),
+				c.Check(famGuard(e, name), "R08", "applyMutations/SetCell/family-known"+sfx, e.Pos(),
 					"cell insertion is dominated by the ok-edge of the lookup of the same family name in the table's live family map",
 					"a SetCell reaches the cell insertion without the family having been found in the table's live family map: writes to unknown or dropped families are stored")
 				// timestamp
@@ -209,9 +218,10 @@ func R08(group string) Rule {
 						}
 						for _, rr := range core.Referrers(fa) {
 							if st, ok := rr.(*ssa.Store); ok {
-								ts := st.Val
-								if factCallTrue(e.Block(), func(call *ssa.Call) bool {
-									return core.FuncIs(call.Call.StaticCallee(), core.PkgBttest, "(*table).validTimestamp") && core.SameValue(call.Call.Args[1], ts)
+								if P.InAllContexts(e, []ssa.Value{st.Val}, within, func(at ssa.Instruction, vals []ssa.Value) bool {
+									return vals[0] != nil && factCallTrue(at.Block(), func(call *ssa.Call) bool {
+										return core.FuncIs(call.Call.StaticCallee(), core.PkgBttest, "(*table).validTimestamp") && core.SameValue(call.Call.Args[1], vals[0])
+									})
 								}) {
 									okTs = true
 								}
@@ -219,19 +229,21 @@ func R08(group string) Rule {
 						}
 					}
 				}
-				c.Check(okTs, "R08", "applyMutations/SetCell/timestamp-valid", e.Pos(),
+				c.Check(okTs, "R08", "applyMutations/SetCell/timestamp-valid"+sfx, e.Pos(),
 					"the value stored as the cell's timestamp passed validTimestamp on every path to the insertion",
 					"the timestamp stored in the new cell is not the value that passed validTimestamp (negative, too large or sub-millisecond timestamps are stored)")
 			}
 			// DeleteFromColumn: the write-back of the column's cells
 			var wb *ssa.Store
-			for _, b := range fn.Blocks {
-				for _, in := range b.Instrs {
-					if st, ok := in.(*ssa.Store); ok {
-						if fa, ok := st.Addr.(*ssa.FieldAddr); ok {
-							if _, f, _ := core.FieldName(fa); f == "Cells" {
-								if call, ok := core.Resolve(fa.X).(*ssa.Call); ok && call.Call.StaticCallee() != nil && call.Call.StaticCallee().Name() == "getColumn" {
-									wb = st
+			for _, f := range scope {
+				for _, b := range f.Blocks {
+					for _, in := range b.Instrs {
+						if st, ok := in.(*ssa.Store); ok {
+							if fa, ok := st.Addr.(*ssa.FieldAddr); ok {
+								if _, fld, _ := core.FieldName(fa); fld == "Cells" {
+									if call, ok := core.Resolve(fa.X).(*ssa.Call); ok && call.Call.StaticCallee() != nil && call.Call.StaticCallee().Name() == "getColumn" {
+										wb = st
+									}
 								}
 							}
 						}
@@ -242,78 +254,75 @@ func R08(group string) Rule {
 				c.Unknown("R08", "applyMutations/DeleteFromColumn", fn.Pos(), "cannot find the write-back of the column's cells")
 			} else {
 				name := familyNameFeeding(wb.Addr)
-				c.Check(famGuard(wb.Block(), name), "R08", "applyMutations/DeleteFromColumn/family-known", wb.Pos(),
+				c.Check(famGuard(wb, name), "R08", "applyMutations/DeleteFromColumn/family-known", wb.Pos(),
 					"range deletion is dominated by the ok-edge of the lookup of the same family name in the live family map",
 					"DeleteFromColumn reaches the deletion without the family having been found in the table's live family map")
 			}
-			searches := callsTo(fn, "sort", "Search")
+			searches := scopeCallsTo(scope, "sort", "Search")
 			if len(searches) < 2 {
 				c.Unknown("R08", "applyMutations/DeleteFromColumn/searches", fn.Pos(), "expected two sort.Search calls (interval ends), found %d", len(searches))
 			}
 			for i, sc := range searches {
-				okStart := factCallTrue(sc.Block(), func(call *ssa.Call) bool {
-					return core.FuncIs(call.Call.StaticCallee(), core.PkgBttest, "(*table).validTimestamp") && loadsField(call.Call.Args[1], "StartTimestampMicros")
+				okStart := P.InAllContexts(sc, nil, within, func(at ssa.Instruction, _ []ssa.Value) bool {
+					return factCallTrue(at.Block(), func(call *ssa.Call) bool {
+						return core.FuncIs(call.Call.StaticCallee(), core.PkgBttest, "(*table).validTimestamp") && loadsField(call.Call.Args[1], "StartTimestampMicros")
+					})
 				})
 				c.Check(okStart, "R08", fmt.Sprintf("applyMutations/DeleteFromColumn/start-valid#%d", i+1), sc.Pos(),
 					"interval search is dominated by the passing edge of validTimestamp(start)",
 					"the delete interval is computed although the range start did not pass validTimestamp")
 				// end validity and inversion: presence of a dominating test
-				endTest, invTest := false, false
-				for _, b := range fn.Blocks {
-					ifi, ok := b.Instrs[len(b.Instrs)-1].(*ssa.If)
-					if !ok || !b.Dominates(sc.Block()) {
-						continue
-					}
-					cond := core.Resolve(ifi.Cond)
-					if u, ok := cond.(*ssa.UnOp); ok && u.Op == token.NOT {
-						cond = core.Resolve(u.X)
-					}
-					if call, ok := cond.(*ssa.Call); ok && core.FuncIs(call.Call.StaticCallee(), core.PkgBttest, "(*table).validTimestamp") && loadsField(call.Call.Args[1], "EndTimestampMicros") {
-						// failing side must be able to reach an error return without the search
-						endTest = true
-					}
-					if bin, ok := cond.(*ssa.BinOp); ok {
-						switch bin.Op {
-						case token.GEQ, token.GTR, token.LSS, token.LEQ:
-							if (loadsField(bin.X, "StartTimestampMicros") && loadsField(bin.Y, "EndTimestampMicros")) || (loadsField(bin.X, "EndTimestampMicros") && loadsField(bin.Y, "StartTimestampMicros")) {
-								invTest = true
+				endTest := P.InAllContexts(sc, nil, within, func(at ssa.Instruction, _ []ssa.Value) bool {
+					found := false
+					dominatingIfs(at, func(_ *ssa.If, cond ssa.Value) {
+						if call, ok := cond.(*ssa.Call); ok && core.FuncIs(call.Call.StaticCallee(), core.PkgBttest, "(*table).validTimestamp") && loadsField(call.Call.Args[1], "EndTimestampMicros") {
+							found = true
+						}
+					})
+					return found
+				})
+				invTest := P.InAllContexts(sc, nil, within, func(at ssa.Instruction, _ []ssa.Value) bool {
+					found := false
+					dominatingIfs(at, func(_ *ssa.If, cond ssa.Value) {
+						if bin, ok := cond.(*ssa.BinOp); ok {
+							switch bin.Op {
+							case token.GEQ, token.GTR, token.LSS, token.LEQ:
+								if (loadsField(bin.X, "StartTimestampMicros") && loadsField(bin.Y, "EndTimestampMicros")) || (loadsField(bin.X, "EndTimestampMicros") && loadsField(bin.Y, "StartTimestampMicros")) {
+									found = true
+								}
 							}
 						}
-					}
-				}
+					})
+					return found
+				})
 				c.Check(endTest, "R08", fmt.Sprintf("applyMutations/DeleteFromColumn/end-valid#%d", i+1), sc.Pos(),
 					"a validTimestamp(end) test dominates the interval search", "no validTimestamp(end) test precedes the interval search")
 				c.Check(invTest, "R08", fmt.Sprintf("applyMutations/DeleteFromColumn/not-inverted#%d", i+1), sc.Pos(),
 					"a start/end ordering test dominates the interval search", "no start-versus-end ordering test precedes the interval search: inverted ranges are applied instead of rejected")
 			}
 			// default case of the mutation type switch returns an error
-			var tas []*ssa.TypeAssert
-			for _, b := range fn.Blocks {
-				for _, in := range b.Instrs {
-					if ta, ok := in.(*ssa.TypeAssert); ok && ta.CommaOk {
-						tas = append(tas, ta)
-					}
-				}
-			}
+			swFn, tas := mutationSwitchFunc(scope, 1)
 			okDefault := false
-			for _, r := range returnsIn(fn) {
-				if ie, _ := isErrorReturn(r); !ie {
-					continue
-				}
-				all := len(tas) > 0
-				for _, ta := range tas {
-					holds := false
-					for _, f := range core.FactsAt(r.Block()) {
-						if ex, ok := f.Cond.(*ssa.Extract); ok && ex.Tuple == ssa.Value(ta) && ex.Index == 1 && !f.Polarity {
-							holds = true
+			if swFn != nil {
+				for _, r := range returnsIn(swFn) {
+					if ie, _ := isErrorReturn(r); !ie {
+						continue
+					}
+					all := len(tas) > 0
+					for _, ta := range tas {
+						holds := false
+						for _, f := range core.FactsAt(r.Block()) {
+							if ex, ok := f.Cond.(*ssa.Extract); ok && ex.Tuple == ssa.Value(ta) && ex.Index == 1 && !f.Polarity {
+								holds = true
+							}
+						}
+						if !holds {
+							all = false
 						}
 					}
-					if !holds {
-						all = false
+					if all {
+						okDefault = true
 					}
-				}
-				if all {
-					okDefault = true
 				}
 			}
 			c.Check(okDefault && len(tas) >= 4, "R08", "applyMutations/unknown-mutation-rejected", fn.Pos(),
@@ -358,20 +367,22 @@ func R08(group string) Rule {
 				fn := P.MustFunc(core.PkgBttest, name)
 				c.Fn(name)
 				n, bad := 0, 0
-				for _, b := range fn.Blocks {
-					for _, in := range b.Instrs {
-						lk, ok := in.(*ssa.Lookup)
-						if !ok {
-							continue
-						}
-						mt, isMap := lk.X.Type().Underlying().(*types.Map)
-						if !isMap || !core.TypeIs(mt.Elem(), "cloud.google.com/go/bigtable/admin/apiv2/adminpb", "ColumnFamily") {
-							continue
-						}
-						n++
-						if !isLiveFamilies(lk.X) {
-							bad++
-							c.Bad("R08", fmt.Sprintf("live-families/%s/lookup#%d", name, n), lk.Pos(), "the family check reads a map that is not the table's live definition: a family dropped meanwhile is still accepted")
+				for _, f := range P.Scope(fn, nil) {
+					for _, b := range f.Blocks {
+						for _, in := range b.Instrs {
+							lk, ok := in.(*ssa.Lookup)
+							if !ok {
+								continue
+							}
+							mt, isMap := lk.X.Type().Underlying().(*types.Map)
+							if !isMap || !core.TypeIs(mt.Elem(), "cloud.google.com/go/bigtable/admin/apiv2/adminpb", "ColumnFamily") {
+								continue
+							}
+							n++
+							if !isLiveFamiliesAnywhere(P, lk.X) {
+								bad++
+								c.Bad("R08", fmt.Sprintf("live-families/%s/lookup#%d", name, n), lk.Pos(), "the family check reads a map that is not the table's live definition: a family dropped meanwhile is still accepted")
+							}
 						}
 					}
 				}
